@@ -3,3 +3,4 @@ import KonstVerif.Model.Slice
 import KonstVerif.Spec.Slice
 import KonstVerif.Props.C02
 import KonstVerif.Spec.Utf8
+import KonstVerif.Props.C10
